@@ -59,6 +59,7 @@ func (p *pool) Acquire(ctx context.Context) (v wire) {
 
 retry:
 	for len(p.list) == 0 && p.size == p.cap && !p.down && ctx.Err() == nil {
+		verifPoint("pool.acquire.wait")
 		p.cond.Wait()
 	}
 
